@@ -133,7 +133,7 @@ def run(ctx):
     from ipv8.messaging.serialization import PackError
     r = ctx.rng("main")
     ser = wire.make_serializer()
-    reg = wire.registry(ser)
+    reg = wire.registry_for_harness(ctx, ser)
     keys = [default_eccrypto.generate_key("curve25519").pub().key_to_bin() for _ in range(3)]
     keys_coq = "[" + "; ".join(zl(k) for k in keys) + "]"
     gen_class = make_gen_class(reg, keys)
